@@ -1092,7 +1092,8 @@ instance (rs : List (Outcome Out)) : Decidable (InContract rs) :=
   * what the collector keeps is what `GC_Mark` marks: `Cello.Heap.collect` (the model of src/GC.c proved complete in C01) run
     on the translation `toObj`, which spells out what each type's Mark instance hands to the collector — Array_Mark the first
     `nitems` items, Table_Mark the slots below the bound read from the source (`CelloGen.Cfg.tableMarkBound`), Tree_Mark every
-    node in order, List_Mark every node, Tuple_Mark the items up to Terminal, Thread_Mark its table; Ref, Box, KCell and
+    node in order, List_Mark every node, Tuple_Mark the items up to Terminal, Thread_Mark its table when it is the marking
+    thread's own object (it is: `GC_Mark` passes `current(Thread)`); Ref, Box, KCell and
     Tracked have no Mark instance and are scanned conservatively, word by word;
   * the two coincide only if every Mark instance covers everything the container holds: that is lemma `refs_fields`
     (CelloProofs/Lemmas/CfgKeep.lean), and it is what a change like "Table_Mark walks `nitems` slots" falsifies. -/
@@ -1234,7 +1235,9 @@ def toHeap (s : KSt) : Cello.Heap.Heap where
         exact addr_div a hc.1 hc.2
     · cases he
 
-/-- the current thread as `GC_Mark` sees it: Thread_Mark → Table_Mark of the thread-local table (String ↦ Ref) -/
+/-- the current thread as `GC_Mark` sees it: `mark(current(Thread), …)` → Thread_Mark, whose test `self is current(Thread)`
+    (fix 80c795e) holds for this object → Table_Mark of the thread-local table (String ↦ Ref).  Thread objects of other
+    threads are not part of a keep program (single thread; no holder kind stores a Thread). -/
 def threadObj (s : KSt) : Cello.Heap.Obj :=
   .thr "Thread" (.cont "Table" (s.tls.flatMap (fun e => [.raw "String" [], .raw "Ref" [addr e.2]])))
 
